@@ -38,9 +38,13 @@ pub fn gen_op(
 
         Node::Real { .. } => gen_primitive(ast, FLOAT, env, constr),
         Node::Int { .. } => gen_primitive(ast, INT, env, constr),
-        Node::ENum { num, .. } => {
-            // a mantissa with a fraction is a float in the output: (1.5 * 10 ** 3)
-            let ty = if num.contains('.') { FLOAT } else { INT };
+        Node::ENum { num, exp } => {
+            // a fraction in the mantissa or a negative exponent is a float in the output: (1.5 * 10 ** 3)
+            let ty = if num.contains('.') || exp.starts_with('-') {
+                FLOAT
+            } else {
+                INT
+            };
             gen_primitive(ast, ty, env, constr)
         }
         Node::Str { expressions, .. } => {
